@@ -14,8 +14,9 @@ real or coordinate never changes its value or makes it longer; low-resolution co
 an error, never read past the end."
 
 The theorems below are about the executable model (`Ivg.Enc.*`, `Ivg.Dec.*`), which the differential
-suite ties to /repo.  Structural (S) and bit-level (B) clauses are proved in full; see the end of the
-file for the float-semantic (F) clauses that are NOT proved here.
+suite ties to /repo.  Structural (S) and bit-level (B) clauses are proved in full, and so are the
+float-semantic (F) clauses about reals and coordinates; see the end of the file for the clauses
+(zero-to-one precision, angle normalisation, `quantize`) that are NOT proved here.
 
 Each implication is followed by an `example` that exhibits a concrete instance of its hypotheses
 (non-vacuity).
@@ -219,7 +220,7 @@ theorem coord_one_equal (f : F32) (h : (Enc.encodeCoordinate f).length = 1) :
 example : (Enc.encodeCoordinate ⟨0xc2800000⟩).length = 1 := by decide   -- -64
 
 /-- 2-byte coordinates: the value written is `i = int32(f*64)` with `float32(i) == f*64`, decoded as
-    `float32(i)/64`.  (That this quotient is `==` to `f` is a float-semantic fact, see the gaps.) -/
+    `float32(i)/64`.  (That this quotient is bit-for-bit `f` is `coord_two_exact` below.) -/
 theorem coord_two (f : F32) (h : (Enc.encodeCoordinate f).length = 2) :
     -128 * 64 ≤ (f * F32.ofInt 64).toInt32 ∧ (f * F32.ofInt 64).toInt32 < 128 * 64 ∧
       (F32.ofInt (f * F32.ofInt 64).toInt32).feq (f * F32.ofInt 64) = true ∧
@@ -264,23 +265,122 @@ theorem nreg_shortest (f : F32) :
     (Enc.nregForm f).2.length ≤ (Enc.encodeZeroToOne f).length :=
   nregForm_shortest f
 
+/-! ## float semantics: exactness, shortest exact form, re-encoding
+
+Proved from the soft-float definitions (`Ivg/Num/Soft.lean`) by integer arithmetic on bit patterns:
+`float32(i)` is exact for `|i| < 2^24`, `*64` and `/64` shift the exponent field by 6 on normal
+numbers, Go's `==` is bit equality up to the two zeros. -/
+
+/-- `float32(i)` is exact below 2^24: converting back gives `i` (both Go conversions). -/
+theorem ofInt_exact (i : Int) (h : i.natAbs < 16777216) :
+    (F32.ofInt i).toInt32 = i ∧ (F32.ofInt i).isNaN = false ∧
+    (0 ≤ i → (F32.ofInt i).toUInt32.toNat = i.toNat) := by
+  refine ⟨toInt32_ofInt i h, ofInt_not_nan i h, fun h0 => ?_⟩
+  have : i = ((i.toNat : Nat) : Int) := by omega
+  rw [this, toUInt32_ofInt i.toNat (by omega)]
+  omega
+example : (-16777215 : Int).natAbs < 16777216 := by decide
+
+/-- Clause "reals always use the shortest form that represents the value exactly": a float that is
+    `==` to an integer `u < 2^14` is written byte-for-byte like the natural `u` (1 byte below 128,
+    else 2 bytes) … -/
+theorem real_shortest_exact (f : F32) (u : Nat) (hu : u < 16384) (h : (F32.ofInt u).feq f = true) :
+    Enc.encodeReal f = Enc.encodeNatural u := encodeReal_of_feq f u hu h
+example : (300 : Nat) < 16384 ∧ (F32.ofInt (300 : Nat)).feq ⟨0x43960000⟩ = true := by decide
+example : (F32.ofInt (0 : Nat)).feq ⟨0x80000000⟩ = true := by decide    -- -0 == 0
+
+/-- … and the short forms are used for no other float. -/
+theorem real_short_iff (f : F32) :
+    (Enc.encodeReal f).length ≠ 4 ↔ ∃ u, u < 16384 ∧ (F32.ofInt (u : Nat)).feq f = true :=
+  Codec.real_short_iff f
+
+/-- Clause "coordinates always use the shortest form …", 1 byte: exactly the floats `==` to an
+    integer in [-64, 64). -/
+theorem coord_one_iff (f : F32) :
+    (Enc.encodeCoordinate f).length = 1 ↔
+      ∃ i : Int, -64 ≤ i ∧ i < 64 ∧ (F32.ofInt i).feq f = true := Codec.coord_one_iff f
+
+/-- 1 or 2 bytes: exactly the floats `==` to `float32(k)/64` for an integer `k ∈ [-8192, 8192)`, i.e.
+    the multiples of 1/64 in [-128, 128). -/
+theorem coord_short_iff (f : F32) :
+    (Enc.encodeCoordinate f).length ≠ 4 ↔
+      ∃ k : Int, -8192 ≤ k ∧ k < 8192 ∧ (F32.ofInt k / F32.ofInt 64).feq f = true :=
+  Codec.coord_short_iff f
+
+/-- Clause "decode back to a numerically equal value whenever the value is representable in the form
+    chosen", 2-byte coordinates: the decoded float is bit-for-bit the input. -/
+theorem coord_two_exact (f : F32) (h : (Enc.encodeCoordinate f).length = 2) : rtCoord f = f :=
+  Codec.coord_two_exact f h
+example : (Enc.encodeCoordinate ⟨0xc2ffe000⟩).length = 2 := by decide   -- -127.9375
+
+/-- … hence every short coordinate form decodes to a float `==` to the input. -/
+theorem coord_short_equal (f : F32) (h : (Enc.encodeCoordinate f).length ≠ 4) :
+    (rtCoord f).feq f = true := rtCoord_feq_of_short f h
+
+/-- Clause "re-encoding a decoded real never changes its value or makes it longer": for EVERY byte
+    string the decoder accepts (shortest or not), the decoded float re-encodes in at most as many
+    bytes as were consumed and decodes again to the same float (bit-identical, or `==` when a
+    4-byte pattern holding a small integer is shortened). -/
+theorem reencode_real {b : Bytes} {d : F32} {rest : Bytes} (h : Dec.decodeReal b = some (d, rest)) :
+    (Enc.encodeReal d).length ≤ b.length - rest.length ∧
+      (rtReal d = d ∨ (rtReal d).feq d = true) := Codec.reencode_real h
+example : Dec.decodeReal [0x0d, 0x00, 0x07] = some (F32.ofInt 3, [0x07]) := by decide
+
+/-- Same clause for coordinates. -/
+theorem reencode_coord {b : Bytes} {d : F32} {rest : Bytes}
+    (h : Dec.decodeCoordinate b = some (d, rest)) :
+    (Enc.encodeCoordinate d).length ≤ b.length - rest.length ∧
+      (rtCoord d = d ∨ (rtCoord d).feq d = true) := Codec.reencode_coord h
+set_option maxRecDepth 10000 in
+example : Dec.decodeCoordinate [0x01, 0x80, 0x07] = some (⟨0⟩, [0x07]) := by decide   -- 2-byte zero
+
+/-- Encode → decode → encode → decode: the second round trip is not longer and changes nothing, up to
+    the sign of zero.  (Bitwise idempotence is FALSE: the negative subnormal `0x80000001` is written
+    in 4 bytes and decodes to `-0`, which is then written in 1 byte and decodes to `+0`.) -/
+theorem roundtrip_idempotent (f : F32) :
+    ((Enc.encodeCoordinate (rtCoord f)).length ≤ (Enc.encodeCoordinate f).length ∧
+      (rtCoord (rtCoord f) = rtCoord f ∨ (rtCoord (rtCoord f)).feq (rtCoord f) = true)) ∧
+    ((Enc.encodeReal (rtReal f)).length ≤ (Enc.encodeReal f).length ∧
+      (rtReal (rtReal f) = rtReal f ∨ (rtReal (rtReal f)).feq (rtReal f) = true)) :=
+  ⟨rtCoord_idem f, rtReal_idem f⟩
+example : rtCoord ⟨0x80000001⟩ = ⟨0x80000000⟩ ∧ rtCoord (rtCoord ⟨0x80000001⟩) = ⟨0⟩ := by decide
+
+/-- **SetNReg instruction round trip**: opcode byte `adj | opcode` and payload as written by
+    `Encoder.setNReg` are decoded by `Dec.decodeStyling` to the call `SetNReg(adj, incr, rtNReg f)`,
+    consuming exactly opcode and payload (`a = 7` is the incrementing form). -/
+theorem nreg_instruction_roundtrip (f : F32) (a : UInt8) (ha : a ≤ 7) (rest : Bytes) :
+    ∃ l0 l1, Dec.decodeStyling ((a ||| (Enc.nregForm f).1) :: ((Enc.nregForm f).2 ++ rest)) =
+      ([.line l0, .line l1, .call (.setNReg (if a == 7 then 0 else a) (a == 7) (rtNReg f))],
+       .ok (.styling, rest)) ∧
+      l0.bytes = [a ||| (Enc.nregForm f).1] ∧ l1.bytes = (Enc.nregForm f).2 ∧
+      l1.kind = .nregNumber (rtNReg f) :=
+  setNReg_instruction f a ha rest
+example : (7 : UInt8) ≤ 7 := by decide
+
+/-- Arc flags (written with `encodeNatural(uint32(float32(flags)))`) decode to the same two flags. -/
+theorem arcflags_roundtrip (la sw : Bool) (rest : Bytes) :
+    ∃ fl, Dec.decodeNatural (Enc.encodeNatural (Enc.arcFlags la sw).toUInt32.toNat ++ rest) =
+      some (fl, 1, rest) ∧ (fl % 2 != 0) = la ∧ (fl / 2 % 2 != 0) = sw :=
+  arcFlags_roundtrip la sw rest
+
 /-!
 ## Clauses NOT proved in this file (documented gaps; covered by the exhaustive differential tier)
 
-These need the value semantics of the soft-float (`F32.ofInt` exact below 2^24, exactness of `*64`,
-`/64`, monotonicity of round-to-nearest-even); nothing above silently assumes them.
+Full-strength statements that remain open (`val` = the real value of a finite float32,
+`ulps a b` = distance of the bit patterns of two same-sign floats):
 
-* "shortest form that represents the value exactly" for reals and coordinates as a statement about
-  *values*: `real_long`, `coord_two` characterise the choice by the Go guards
-  (`float32(uint32(f)) == f`, `float32(int32(f*64)) == f*64`); that these guards hold exactly for the
-  integers in [0, 2^14) resp. [-64, 64) and the multiples of 1/64 in [-128, 128) is not proved.
-* 2-byte coordinate "decodes to a numerically equal value": `coord_two` gives
-  `rtCoord f = float32(i)/64` with `float32(i) == f*64`; `float32(i)/64 == f` is not proved.
-* "re-encoding a decoded real or coordinate never changes its value or makes it longer": only the
-  4-byte case in the 4-byte form (`real4_idempotent`) is proved.
-* zero-to-one short forms "within 4 ulp": `z2o_short` states the guard only.
-* "low-resolution coordinates in [-128,128) become the nearest multiple of 1/64" (`quantize`): not
-  addressed here (and false for one input today, defect F1 in DESIGN.md).
+* `z2o_bound`: `(Enc.encodeZeroToOne f).length ≠ 4 → sgn (rtZ2O f) = sgn f ∧ ulps (rtZ2O f) f ≤ 4`.
+  Proved instead: `z2o_short` (the guard `float32(u) == f*15120 ∧ u < 15120`) and `z2o_roundtrip`
+  (the decoded value is `float32(u/126)/120` resp. `float32(u)/15120`).  Missing: an error bound for
+  one rounding of `*` and one of `/` (monotonicity of round-to-nearest-even on the soft-float).
+* `angle_mod1`: `¬ f.isNaN ∧ expo f ≠ 255 → val (angleNorm f) = round32 (val f - ⌊val f⌋)`; `angle_roundtrip`
+  is relative to `angleNorm`.  Missing: the float64 lemmas (`F64.ofF32` exact, `floor`, `-`, `toF32`).
+* `quantize_nearest`: `F32.ofInt (-128) ≤ f ∧ f < F32.ofInt 128 →
+  ∃ k : Int, quantize false f = F32.ofInt k / F32.ofInt 64 ∧ 64·val f - 1/2 < k ∧ k ≤ 64·val f + 1/2`.
+  Not addressed (needs the same float64 lemmas plus the rounding of `+ 0.5`).  What IS proved: whatever
+  `quantize` returns, if it is `==` to a multiple of 1/64 in [-128, 128) it is written in ≤ 2 bytes and
+  read back exactly, otherwise in 4 bytes within 30-bit precision (`coord_short_iff`, `coord_short_equal`,
+  `coord_long`).
 -/
 
 end Ivg.Props.C08
@@ -299,4 +399,10 @@ end Ivg.Props.C08
   Ivg.Props.C08.angle_roundtrip, Ivg.Props.C08.number_lengths,
   Ivg.Props.C08.real_short_equal, Ivg.Props.C08.real_long, Ivg.Props.C08.coord_one_equal,
   Ivg.Props.C08.coord_two, Ivg.Props.C08.coord_long, Ivg.Props.C08.z2o_long, Ivg.Props.C08.z2o_short,
-  Ivg.Props.C08.nreg_opcode, Ivg.Props.C08.nreg_roundtrip, Ivg.Props.C08.nreg_shortest]
+  Ivg.Props.C08.nreg_opcode, Ivg.Props.C08.nreg_roundtrip, Ivg.Props.C08.nreg_shortest,
+  Ivg.Props.C08.ofInt_exact, Ivg.Props.C08.real_shortest_exact, Ivg.Props.C08.real_short_iff,
+  Ivg.Props.C08.coord_one_iff, Ivg.Props.C08.coord_short_iff, Ivg.Props.C08.coord_two_exact,
+  Ivg.Props.C08.coord_short_equal, Ivg.Props.C08.reencode_real, Ivg.Props.C08.reencode_coord,
+  Ivg.Props.C08.roundtrip_idempotent, Ivg.Props.C08.nreg_instruction_roundtrip,
+  Ivg.Props.C08.arcflags_roundtrip,
+  Ivg.Gen.Tie.drawOps_tie, Ivg.Gen.Tie.magic_tie]
